@@ -157,7 +157,7 @@ def run_replace(ctx, p, given=None, tag=''):
         N = p['N']
         st, sp = build_state(ctx, 's', N, terms=p.get('terms'), coeff_rows=rows, atom_rows=3, elements=list(ELEMS),
                              pair_coeffs=p.get('s_pair', True), cell=np.diag([20., 21., 22.]),
-                             extra=p.get('extra'))
+                             extra=p.get('extra'), labels=p.get('s_labels'))
     else:
         st, sp = given
         N = sp.N
@@ -181,6 +181,8 @@ def run_replace(ctx, p, given=None, tag=''):
                         ctx.assume(idx[m][k] != idx[m2][k2])
             else:   # any overlap, but never the same atom group (find reports each group once)
                 ctx.assume(OR(*[AND(*[idx[m][k] != idx[m2][k2] for k2 in range(n)]) for k in range(n)]))
+    if p.get('after_matches'):
+        p['after_matches'](ctx, sp, idx)
     # matched positions are concrete here (bookkeeping does not depend on them; the placement of inserted atoms is C05's):
     # symbolic ones would only multiply paths through the periodic wrap of every inserted coordinate
     mpos = [[[1.5 + 2.0 * m + 0.7 * k + 0.3 * c for c in range(3)] for k in range(n)] for m in range(M)]
